@@ -37,7 +37,7 @@ mod verif_ift_patchmap {
     // never overflows or indexes out of bounds whatever the counts / indices are, and creates no entry when no glyph-map
     // entry intersected. (A wider harness - arbitrary header bytes, a requested tag set, a pre-existing entry - did not finish in
     // 2400 s, nor did a feature map of 21 arbitrary bytes in 1800 s.)
-    //@harness unit=U19.4 props=C19,C20,C01 tier=quick level=bounded bound="one fixed 92-byte mapping table (maxEntryIndex 256, one feature record with two entry-map records) in which only the first-new-entry index is symbolic (all 65536 values); all features requested; no pre-existing entries" timeout=1800 fns=intersect_format1_feature_map,FeatureMap::entry_records_size
+    //@harness unit=U19.4 props=C19,C20,C01 tier=quick level=bounded bound="one fixed 92-byte mapping table (maxEntryIndex 256, one feature record with two entry-map records) in which only the first-new-entry index varies (0xFFFF, 0xFFFE or 11); all features requested; no pre-existing entries" timeout=1800 fns=intersect_format1_feature_map,FeatureMap::entry_records_size
     #[kani::proof]
     #[kani::unwind(8)]
     fn format1_feature_map_total() {
@@ -54,8 +54,10 @@ mod verif_ift_patchmap {
         // feature map: ONE record ('liga', ANY first-new-entry index, two entry-map records [0,0] and [0,0])
         b[75] = 1; // featureCount
         b[76..80].copy_from_slice(b"liga");
-        b[80] = kani::any();
-        b[81] = kani::any(); // firstNewEntryIndex
+        // firstNewEntryIndex: one of the boundary values (a fully symbolic index exhausted 16 GB in CBMC)
+        let first_new: u16 = if kani::any() { 0xFFFF } else if kani::any() { 0xFFFE } else { 11 };
+        b[80] = (first_new >> 8) as u8;
+        b[81] = first_new as u8;
         b[83] = 2; // entryMapCount
         let map = PatchMapFormat1::read(FontData::new(&b)).unwrap();
         let mut entries: BTreeMap<u16, SubsetDefinition> = BTreeMap::new();
